@@ -750,4 +750,134 @@ example : canvasOf ([(DT.f4, exA), (DT.i8, exB)].map (fun x => x.2.toE x.1)) = .
     ∧ [exM2, exM1, exM3].Perm [exM2, exM3, exM1] ∧ canvasOf [exM2, exM1, exM3] = canvasOf [exM2, exM3, exM1] := by
   refine ⟨rfl, by simp, by simp [exM1, exM2, exM3], List.Perm.cons _ (List.Perm.swap _ _ _), rfl⟩
 
+
+/-! ## histories: the result of one merge fed into the next (tiling) -/
+/-- **tiling, one pixel.**  Let `R` be an image that holds at `p` what the merge of `l₁` with fill NaN holds there
+(`spec m none l₁ p`; NaN or nothing where `l₁` contributes nothing).  Merging `R` followed by further images `l₂` gives at
+`p` what the one merge of `l₁ ++ l₂` gives — in replace and sum mode, for every fill.  (Not in mean mode: a mean of
+means is not the mean, see the example below.) -/
+theorem tiling_pixel (m : Mode) (hm : m ≠ .mean) (fill : V) (l₁ l₂ : List Arr) (R : Arr) (p : Idx)
+    (hR : (R.at p).join = spec m none l₁ p) :
+    mech m fill (R :: l₂) p = mech m fill (l₁ ++ l₂) p := by
+  rw [pixel_spec, pixel_spec]
+  have h2 : contribs (l₁ ++ l₂) p = contribs l₁ p ++ contribs l₂ p := by
+    unfold contribs; rw [List.filterMap_append]
+  unfold spec at hR ⊢
+  rw [contribs_cons, h2, hR]
+  cases h1 : contribs l₁ p with
+  | nil => simp
+  | cons c cs =>
+    cases m with
+    | mean => exact absurd rfl hm
+    | replace =>
+      simp only
+      cases hc2 : contribs l₂ p with
+      | nil => simp
+      | cons d ds => simp [List.getLast_append]
+    | sum =>
+      simp only
+      cases hc2 : contribs l₂ p with
+      | nil => simp
+      | cons d ds => simp [List.sum_append, add_assoc]
+
+/-- hypothesis of `tiling_pixel` met by a non-trivial input (the one-pixel image holding the sum 3 of `exA`, `exB` at
+(1,1)), and the reason mean mode is excluded: the mean of the mean 3/2 and 6 is not the mean of 1, 2, 6 -/
+example : (({ off := [1, 1], shape := [1, 1], get := fun _ => some 3 } : Arr).at [1, 1]).join = spec .sum none [exA, exB] [1, 1]
+    ∧ mech .mean none [({ off := [1, 1], shape := [1, 1], get := fun _ => some (3 / 2) } : Arr),
+                        { off := [1, 1], shape := [1, 1], get := fun _ => some 6 }] [1, 1] = some (15 / 4)
+    ∧ mech .mean none [exA, exB, { off := [1, 1], shape := [1, 1], get := fun _ => some 6 }] [1, 1] = some 3 := by
+  decide +kernel
+
+/-! ## structured variant: translation and reordering -/
+
+def shiftS (t : List Int) (a : SArr) : SArr := { a with off := List.zipWith (· + ·) a.off t }
+
+theorem field_shiftS (t : List Int) (a : SArr) (n : String) : (shiftS t a).field n = shift t (a.field n) := by
+  unfold SArr.field shiftS shift
+  cases a.fields.lookup n <;> rfl
+
+theorem mergedNames_shiftS (t : List Int) (arrs : List SArr) : mergedNames (arrs.map (shiftS t)) = mergedNames arrs := by
+  unfold mergedNames
+  rw [List.foldl_map]
+  rfl
+
+/-- **structured variant: a common translation of all offsets leaves every field of the result unchanged** -/
+theorem structured_translation_invariant (spc : Bool) (m : Mode) (fill : V) (ndim : Nat) (arrs : List SArr)
+    (t : List Int) (hne : arrs ≠ []) (hoff : ∀ a ∈ arrs, a.off.length = ndim) (ht : t.length = ndim) :
+    overlapStructured spc m fill ndim (arrs.map (shiftS t)) = overlapStructured spc m fill ndim arrs := by
+  unfold overlapStructured
+  rw [mergedNames_shiftS]
+  apply List.map_congr_left
+  intro n _
+  have : (arrs.map (shiftS t)).map (·.field n) = (arrs.map (·.field n)).map (shift t) := by
+    simp [List.map_map, Function.comp_def, field_shiftS]
+  rw [this, overlap_translation_invariant spc m fill ndim _ t (by simpa using hne) _ ht]
+  intro a ha
+  obtain ⟨b, hb, rfl⟩ := List.mem_map.mp ha
+  rw [field_off]; exact hoff b hb
+
+/-- **structured variant: reordering the inputs (mean / sum).**  The result has the same field names (in another
+order: the merged dtype lists them in order of first appearance) and every field holds the same image.
+Hypothesis: no input carries a field name twice. -/
+theorem structured_perm_invariant (m : Mode) (hm : m ≠ .replace) (fill : V) (ndim : Nat) (a₁ a₂ : List SArr)
+    (hp : a₁.Perm a₂) (hn : ∀ a ∈ a₁, (a.fields.map (·.1)).Nodup) :
+    (mergedNames a₁).Perm (mergedNames a₂) ∧
+    ∀ n, (overlapStructured false m fill ndim a₁).lookup n = (overlapStructured false m fill ndim a₂).lookup n := by
+  have hn2 : ∀ a ∈ a₂, (a.fields.map (·.1)).Nodup := fun a ha => hn a (hp.mem_iff.mpr ha)
+  have hmem : ∀ n, n ∈ mergedNames a₁ ↔ n ∈ mergedNames a₂ := by
+    intro n
+    rw [mergedNames_mem, mergedNames_mem]
+    exact ⟨fun ⟨a, ha, h⟩ => ⟨a, hp.mem_iff.mp ha, h⟩, fun ⟨a, ha, h⟩ => ⟨a, hp.mem_iff.mpr ha, h⟩⟩
+  refine ⟨(List.perm_ext_iff_of_nodup (mergedNames_nodup a₁ hn) (mergedNames_nodup a₂ hn2)).mpr hmem, ?_⟩
+  intro n
+  unfold overlapStructured
+  rw [lookup_map_self, lookup_map_self]
+  by_cases h : n ∈ mergedNames a₁
+  · rw [if_pos h, if_pos ((hmem n).mp h), overlap_perm_invariant m hm fill ndim _ _ (hp.map _)]
+  · rw [if_neg h, if_neg (fun h' => h ((hmem n).mpr h'))]
+
+def shiftDS (t : List Int) (a : DArr) : DArr := { a with off := List.zipWith (· + ·) a.off t }
+
+/-- the same with field dtypes (exception classes, casts and all) -/
+theorem structuredD_translation_invariant (spc : Bool) (m : Mode) (fill : V) (ndim : Nat) (arrs : List DArr)
+    (t : List Int) (hne : arrs ≠ []) (hoff : ∀ a ∈ arrs, a.off.length = ndim) (ht : t.length = ndim) :
+    overlapStructuredD spc m fill ndim (arrs.map (shiftDS t)) = overlapStructuredD spc m fill ndim arrs := by
+  have hd : mergedDescr (arrs.map (shiftDS t)) = mergedDescr arrs := by
+    unfold mergedDescr
+    rw [List.foldl_map]
+    rfl
+  have hc : ∀ n, canvasDT (arrs.map (shiftDS t)) n = canvasDT arrs n := by
+    intro n
+    cases arrs with
+    | nil => rfl
+    | cons a l => rfl
+  have hf : ∀ n, (arrs.map (shiftDS t)).map (fun a => a.toS.field n) = (arrs.map (fun a => a.toS.field n)).map (shift t) := by
+    intro n
+    simp only [List.map_map]
+    apply List.map_congr_left
+    intro a _
+    exact field_shiftS t a.toS n
+  have ho : ∀ n, overlap spc m fill ndim ((arrs.map (shiftDS t)).map (fun a => a.toS.field n))
+      = overlap spc m fill ndim (arrs.map (fun a => a.toS.field n)) := by
+    intro n
+    rw [hf, overlap_translation_invariant spc m fill ndim _ t (by simpa using hne) _ ht]
+    intro a ha
+    obtain ⟨b, hb, rfl⟩ := List.mem_map.mp ha
+    rw [field_off]; exact hoff b hb
+  unfold overlapStructuredD
+  simp only [hd, fieldOutcome, hc, ho]
+
+/-- three structured inputs whose field sets overlap pairwise, each lacking one name: hypotheses of
+`structured_translation_invariant` / `structured_perm_invariant`; the merged names come in order of first appearance,
+so two orders of the inputs list them differently -/
+def exS1 : SArr := ⟨[0], [2], [("A", fun _ => some 1), ("B", fun _ => none)]⟩
+def exS2 : SArr := ⟨[1], [2], [("C", fun _ => some 3), ("B", fun _ => some 2)]⟩
+def exS3 : SArr := ⟨[-1], [1], [("C", fun _ => some 5), ("A", fun _ => some 7)]⟩
+
+example : [exS1, exS2, exS3] ≠ [] ∧ (∀ a ∈ [exS1, exS2, exS3], a.off.length = 1)
+    ∧ (∀ a ∈ [exS1, exS2, exS3], (a.fields.map (·.1)).Nodup) ∧ [exS1, exS2, exS3].Perm [exS3, exS1, exS2]
+    ∧ mergedNames [exS1, exS2, exS3] = ["A", "B", "C"] ∧ mergedNames [exS3, exS1, exS2] = ["C", "A", "B"] := by
+  refine ⟨by simp, by simp [exS1, exS2, exS3], by simp [exS1, exS2, exS3], ?_, by decide, by decide⟩
+  exact (List.perm_append_comm (l₁ := [exS1, exS2]) (l₂ := [exS3]))
+
 end Pew.Overlap
